@@ -179,7 +179,10 @@ static int cmd_work(int argc, char **argv) {
 	};
 
 	for (uint64_t i = start; i < total && !stop; ++i) {
-		if ((int)(i % (uint64_t) st.W) != st.w) continue;
+		// run i belongs to worker (i + i / W) mod W: every block of W consecutive indices is spread over all workers, rotated
+		// by one from block to block, so that generators which key a family on the index modulo a small number (C16: the
+		// long self-extractor prefixes are every eighth index) do not load two workers with all the heavy runs
+		if ((int)((i + i / (uint64_t) st.W) % (uint64_t) st.W) != st.w) continue;
 		Plan plan = sc->generate(seed, i, tier);
 		plan.property = prop;
 		plan.seed = seed;
